@@ -207,7 +207,99 @@ def gd8(facts, rep):
     rep.floor(rule, 'difference sites', n, 3)
 
 
+def gd8b(facts, rep):
+    rule = 'GD-8b'
+    rep.rule(rule, 'term selection of ln_sum_exp: the closure producing the summed terms drops a term (returns None) only '
+                   'because it is the maximum itself (index equality) or exactly ln(0) (equality with ln_zero()); any other '
+                   'condition - in particular an absolute threshold on the log value - discards terms that matter relative '
+                   'to the maximum; equality tests in ln_sub_exp use the default tolerance of approx::Relative')
+    b = facts.body(P + 'LogProb::ln_sum_exp')
+    if b is None:
+        rep.missing(rule, P + 'LogProb::ln_sum_exp', 'not found')
+        return
+    n = 0
+    for c in facts.closures_of(b.path):
+        nones = [bb for bb in c.reachable(0) for s in c.stmts(bb)
+                 if s['k'] == 'assign' and s['p']['l'] == 0 and s['r']['k'] == 'agg' and s['r'].get('variant') == 'None']
+        if not nones:
+            continue
+        rep.analysed_body(c)
+        n += 1
+        key = 'LogProb::ln_sum_exp|terms-dropped-only-for-max-or-ln_zero'
+        bad = []
+        for g in eng_gd.guards(c):
+            txt = g['text']
+            e = strip(g['expr'])
+            ok = False
+            if g['cmp_true'] and g['cmp_true'][0] == 'Eq':
+                if 'ln_zero' in txt:
+                    ok = True
+                elif e[0] == 'bin' and all(not (isinstance(x, tuple) and x[0] == 'const' and isinstance(x[1], tuple) and x[1][0] == 'bits')
+                                           for x in walk(e)):
+                    ok = True   # index equality
+            if not ok:
+                bad.append(txt)
+        if bad:
+            rep.bad(rule, key, '%s:%s' % (c.file, c.line), 'a term of the sum is dropped under the condition `%s`: only the maximum '
+                                                           'itself and exact ln(0) may be skipped' % bad[0][:100])
+        else:
+            rep.ok(rule, key, '%s:%s' % (c.file, c.line), 'None only for i == imax or p == ln_zero()')
+    rep.floor(rule, 'term closures', n, 1)
+    sub = facts.body(P + 'LogProb::ln_sub_exp')
+    key = 'LogProb::ln_sub_exp|default-equality-tolerance'
+    if sub is None:
+        rep.missing(rule, key, 'not found')
+    else:
+        rep.analysed_body(sub)
+        setters = []
+        for bb, t in sub.calls():
+            info = call_info(t)
+            if info and info['fn'].startswith('approx::Relative') and info['fn'].rsplit('::', 1)[-1] in ('max_relative', 'epsilon'):
+                v = const_f(strip(sub.expr_operand(t['args'][1], inline_user=True)))
+                if v is None or v > 1e-9:
+                    setters.append((bb, info['fn'].rsplit('::', 1)[-1], v))
+        if setters:
+            rep.bad(rule, key, sub.loc(setters[0][0]), 'the "operands are equal" shortcut uses %s = %s on the log values: differences '
+                                                       'far above rounding noise are returned as probability 0' % (setters[0][1], setters[0][2]))
+        else:
+            rep.ok(rule, key, '%s:%s' % (sub.file, sub.line), 'approx::Relative::default()')
+
+
+def tb10(facts, rep):
+    rule = 'TB-10'
+    rep.rule(rule, 'fast exponential cut-off: with x = ONEBYLOG2 * arg the bit trick builds the exponent field trunc(x) + '
+                   'OFFSET_F64, which must stay >= 1, i.e. MIN_VAL * ONEBYLOG2 + OFFSET_F64 >= 1 (MIN_VAL > about -708.4); and '
+                   'MIN_VAL <= -40 so that flushing to 0 costs less than f64 epsilon relative to the largest operand')
+    mv = fval(facts.consts.get('utils::fastexp::MIN_VAL'))
+    ob = fval(facts.consts.get('utils::fastexp::ONEBYLOG2'))
+    off = facts.const_value('utils::fastexp::OFFSET_F64')
+    key = 'fastexp|cutoff-keeps-exponent-field-positive'
+    if mv is None or ob is None or off is None:
+        rep.missing(rule, key, 'constants MIN_VAL / ONEBYLOG2 / OFFSET_F64 not evaluated')
+        return
+    # the comparison must actually use MIN_VAL
+    fb = facts.one(r'^<f64 as utils::fastexp::FastExp<f64>>::fastexp$')
+    uses = False
+    if fb is not None:
+        rep.analysed_body(fb)
+        for g in eng_gd.guards(fb):
+            if 'MIN_VAL' in g['text']:
+                uses = g['cmp_true'] is not None
+    lo = math.trunc(mv * ob) + off
+    if not uses:
+        rep.bad(rule, key, '', 'fastexp does not compare its argument with MIN_VAL before the bit trick')
+    elif lo < 1:
+        rep.bad(rule, key, '', 'MIN_VAL = %r lets trunc(x / ln 2) + %d become %d < 1: the shifted bits run into the sign bit and '
+                               'fastexp returns huge negative values / -inf instead of ~0' % (mv, off, lo))
+    elif mv > -40.0:
+        rep.bad(rule, key, '', 'MIN_VAL = %r flushes values to 0 that are not negligible relative to the largest operand' % mv)
+    else:
+        rep.ok(rule, key, '', 'MIN_VAL = %r: smallest exponent field %d >= 1' % (mv, lo))
+
+
 def run(facts, rep, ctx):
+    gd8b(facts, rep)
+    tb10(facts, rep)
     tb5(facts, rep)
     gd5(facts, rep)
     gd8(facts, rep)
